@@ -1,4 +1,6 @@
 import BarterModel.Lemmas.Unrealised
+import BarterModel.Lemmas.KernelsAgree.Position
+import BarterModel.Lemmas.KernelsAgree.Book
 /-!
 # C15 — Unrealised PnL of an open position tracks the instrument's latest price
 
@@ -224,5 +226,30 @@ example : (((Spec.init 2).run (sample.take 4))[0]?.bind (·.mark)) = some ⟨110
 example : (((Spec.init 2).run sample)[0]?.bind (·.mark)) = some ⟨120, .fill⟩ ∧
     (((Spec.init 2).run (sample.take 1))[0]?.bind (·.mark)) = some ⟨100, .openingFill⟩ := by
   decide +kernel
+
+/-- **Tie to the source by translation.** The arithmetic this property rests on — the estimate
+`calculate_pnl_unrealised` with `approximate_remaining_exit_fees` (position.rs) and the price
+`volume_weighted_mid_price` of the `OrderBookL1` payload (barter-data/src/books/mod.rs) — is
+regenerated from the current source by `tools/rust2lean.py` on every run, and the generated
+definitions equal the model's for all arguments. A change of one of these kernels in the source makes
+this theorem fail to build. -/
+theorem kernels_agree_with_source :
+    (∀ (side : Side) (priceEntryAverage quantityAbs quantityAbsMax feesEnter pr : Rat),
+        BarterModel.Generated.calculate_pnl_unrealised (BarterModel.KernelsAgree.sideOf side)
+            priceEntryAverage quantityAbs quantityAbsMax feesEnter pr
+          = calculatePnlUnrealised side priceEntryAverage quantityAbs quantityAbsMax feesEnter pr)
+    ∧ (∀ quantityAbs quantityAbsMax feesEnter : Rat,
+        BarterModel.Generated.approximate_remaining_exit_fees quantityAbs quantityAbsMax feesEnter
+          = approximateRemainingExitFees quantityAbs quantityAbsMax feesEnter)
+    ∧ (∀ x : L1,
+        BarterModel.Generated.volume_weighted_mid_price { price := x.bidP, amount := x.bidA }
+            { price := x.askP, amount := x.askA }
+          = volumeWeightedMidPrice x)
+    ∧ (∀ s, BarterModel.KernelsAgree.sideTo (BarterModel.KernelsAgree.sideOf s) = s)
+    ∧ (∀ s, BarterModel.KernelsAgree.sideOf (BarterModel.KernelsAgree.sideTo s) = s) :=
+  ⟨BarterModel.KernelsAgree.calculate_pnl_unrealised_agrees,
+    BarterModel.KernelsAgree.approximate_remaining_exit_fees_agrees,
+    BarterModel.KernelsAgree.volume_weighted_mid_price_agrees_l1,
+    BarterModel.KernelsAgree.side_bijection.1, BarterModel.KernelsAgree.side_bijection.2⟩
 
 end BarterModel.Props.C15
